@@ -93,6 +93,7 @@ func main() {
 			if len(ids) == 1 {
 				t0 = start
 			}
+			deepMode = *tier == "thorough"
 			c := NewCtx(P, id, *tier)
 			c.Explain = pd.Explain
 			c.NotCover = pd.NotCover
